@@ -12,7 +12,7 @@ from ..events import container_events, root_name
 from ..paths import path_variants, return_cases, var_leaves
 from ..defuse import DefUse, Terms, show, walk_term
 from ..defuse import key as tkey
-from ..tutil import (EvUnknown, bound_args, ev_term, flat_text, items_as_subs, lin,
+from ..tutil import (EvUnknown, module_constants, bound_args, ev_term, flat_text, items_as_subs, lin,
                      no_uids,
                      np_call, select_ifexp, seq_parts,
                      simp,
@@ -395,6 +395,74 @@ def _shuffle(ctx, f):
                   why, node=pst[0].node)
 
 
+def _judge_splitter(prog, f, fnode, R, joined):
+    """The lines of a record come from something other than
+    textwrap.wrap(sequence): collect, per straight-line path through the
+    record loop, the term of the list of lines and the conditions of the
+    path, and let the bounded evaluator decide whether the lines always
+    concatenate to the sequence.  R: term of the iterated records when the
+    caller knows it, else None (then every loop with a branch in its body is
+    tried).  Returns (verdict, message, R)."""
+    from ..chunks import judge_partition
+    T0 = Terms(DefUse(prog, f, fnode=fnode))
+    if R is not None:
+        loops = [n for n in ast.walk(fnode) if isinstance(n, ast.For)
+                 and items_as_subs(T0.of(n.iter)) == R]
+    else:
+        loops = [n for n in ast.walk(fnode) if isinstance(n, ast.For)
+                 and any(isinstance(x, ast.If) for b in n.body
+                         for x in ast.walk(b))]
+    last = ("unknown", "record loop not found", None)
+    for loop in loops:
+        last = _judge_loop(prog, f, fnode, loop, joined, judge_partition)
+        if last[0] != "unknown":
+            return last
+    return last
+
+
+def _judge_loop(prog, f, fnode, loop, joined, judge_partition):
+    cases = []
+    X = None
+    Rs = set()
+    for sv in path_variants(fnode, within=loop):
+        sT = Terms(DefUse(prog, f, fnode=sv.fnode))
+        ws = [n for n in ast.walk(sv.fnode) if isinstance(n, ast.Call)
+              and isinstance(n.func, ast.Attribute)
+              and n.func.attr == "write" and len(n.args) == 1]
+        if len(ws) != 1:
+            return "unknown", "write call not found on a path", None
+        wt = items_as_subs(select_ifexp(
+            select_ifexp(sT.of(ws[0].args[0]), ("param", "concatenate"),
+                         True), ("param", "concatenate"), False))
+        lst = joined(wt)
+        parts = seq_parts(lst) if lst is not None else None
+        if not (parts and len(parts) == 1 and parts[0][0] == "each"):
+            return "unknown", "records not recognised on a path", None
+        _k, elt, R2 = parts[0]
+        Rs.add(R2)
+        ft = flat_text(elt)
+        rec = ("elem", R2)
+        head = [("const", ">"), ("sub", rec, ("const", 0)),
+                ("const", "\n")]
+        if ft == head:
+            lines_t = ("list", ())      # '\n'.join([]) folded to ''
+        elif len(ft) == 4 and ft[:3] == head and \
+                joined(ft[3]) is not None:
+            lines_t = joined(ft[3])
+        else:
+            return "unknown", "record text not recognised on a path", None
+        X = ("sub", rec, ("const", 1))
+        conds = []
+        for t_, o in sv.conds:
+            conds.append((module_constants(
+                prog, items_as_subs(sT.of(t_))), o))
+        cases.append((conds, module_constants(prog, lines_t)))
+    if not cases or X is None or len(Rs) != 1:
+        return "unknown", "no single record stream through the loop", None
+    v, msg = judge_partition(cases, X)
+    return v, msg, next(iter(Rs))
+
+
 def _make(ctx, f):
     """Sink-driven: what is written to the output file, per value of
     ``concatenate``."""
@@ -427,30 +495,50 @@ def _make(ctx, f):
         ctx.require(len(ws) == 1, f"{f.qual}: several writes")
         wt = vT.of(ws[0].args[0])
         for fl in ([flag] if flag is not None else [True, False]):
-            seen.setdefault(fl, []).append(items_as_subs(select_ifexp(
-                wt, ("param", "concatenate"), fl)))
+            seen.setdefault(fl, []).append((items_as_subs(select_ifexp(
+                wt, ("param", "concatenate"), fl)), v.fnode))
     ctx.require(set(seen) == {True, False}, f"{f.qual}: written text not "
                 "determined for both values of concatenate")
     recs = {}
     ok_w = True
     why = ""
+    splitters = []     # hand-written line splitters: (flag, fnode, R)
     for fl, terms in seen.items():
-        for t in terms:
+        for t, vnode in terms:
             lst = joined(t)
             parts = seq_parts(lst) if lst is not None else None
             if not (parts and len(parts) == 1 and parts[0][0] == "each"):
-                ok_w = False
-                why = f"written text is {show(t, 160)}"
+                # branches inside the record loop: judge path by path
+                splitters.append((fl, vnode, None, t))
                 continue
             _k, elt, R = parts[0]
             rec = ("elem", R)
-            want = [("const", ">"), ("sub", rec, ("const", 0)), NL,
-                    ("mcall", NL, "join", (("call", "textwrap.wrap", (
-                        ("sub", rec, ("const", 1)),), ()),), ())]
-            if flat_text(elt) != want:
+            ft = flat_text(elt)
+            head = [("const", ">"), ("sub", rec, ("const", 0)), NL]
+            wrapped = ("call", "textwrap.wrap", (
+                ("sub", rec, ("const", 1)),), ())
+            if ft[:3] != head or len(ft) != 4 or joined(ft[3]) is None:
                 ok_w = False
                 why = f"a record is written as {show(elt, 200)}"
+            elif joined(ft[3]) != wrapped:
+                splitters.append((fl, vnode, R, t))
             recs.setdefault(fl, set()).add(R)
+    for fl, vnode, R, t in splitters:
+        verdict, msg, R2 = _judge_splitter(prog, f, vnode, R, joined)
+        if verdict == "unknown":
+            if R is None:
+                ok_w = False
+                why = f"written text is {show(t, 160)}"
+                continue
+            raise AnalysisError(
+                f"{f.qual}: the sequence lines are produced by a "
+                f"hand-written splitter that cannot be evaluated ({msg})")
+        if R is None and R2 is not None:
+            recs.setdefault(fl, set()).add(R2)
+        if verdict == "violation":
+            ok_w = False
+            why = ("the sequence is cut into lines by hand and " + msg
+                   + ": the written record is not the sequence")
     ctx.check(ok_w, "C18c-records-written", f,
               "every record is written as '>' + name, newline, wrapped "
               "sequence, in list order", why or "writer not recognised",
@@ -461,8 +549,11 @@ def _make(ctx, f):
     if ok:
         r_t, r_f = next(iter(recs[True])), next(iter(recs[False]))
         DEC = r_f
-        ok = (r_f[0] == "call" and r_f[1] == FA + "_shuffle_proteins"
-              and r_t == ("bin", "+", r_f[2][0] if r_f[2] else None, r_f))
+        tg = None
+        if r_f[0] == "call" and r_f[1] == FA + "_shuffle_proteins":
+            tg = (bound_args(prog, r_f) or {}).get(
+                prog.func(FA + "_shuffle_proteins").params[0])
+        ok = tg is not None and r_t == ("bin", "+", tg, r_f)
     ctx.check(ok, "C18c-concatenate", f,
               "concatenated mode keeps the targets first and appends the "
               "decoys; otherwise only decoys are written", why,
